@@ -120,12 +120,108 @@ class C01:
                 cases.append(dict(kind="prog", model=True, prog=gen_program(rng, tier, bad=0.25)))
             else:
                 cases.append(dict(kind="prog", model=False, prog=gen_program(rng, tier, exact=False)))
+        # Parameter-valued components: U must be the product at the CURRENT values, before and after updates, also
+        # after a frozen copy / plain copy was taken (oracle only; the store semantics is property C10's model)
+        for i in range(n // 8):
+            cases.append(dict(kind="param", model=False, seed=rng.randrange(10**9)))
         # components added to circuits that already contain heralded sub-circuits (user modes skip ancillas)
         for i in range(n // 4):
             cases.append(dict(kind="tree", model=True, prog=cg.gen_tree_program(rng, tier, loss_p=0.6, max_leaves=2)))
         return cases
 
+    def _param_scenario(self, seed):
+        import random as _r
+        rng = _r.Random(seed)
+        n = rng.randint(2, 5)
+        ops = []           # (kind, modes..., value-index), values live in vals[]
+        vals, pars = [], []
+
+        def val(lo, hi):
+            vals.append(rng.uniform(lo, hi))
+            pars.append(lw.Parameter(vals[-1]) if rng.random() < 0.7 else None)
+            return len(vals) - 1
+
+        for _ in range(rng.randint(2, 7)):
+            k = rng.choice(["bs", "bs", "ps", "ps", "loss"])
+            if k == "bs":
+                a, b = rng.sample(range(n), 2)
+                ops.append(("bs", a, b, rng.choice(["Rx", "H"]), val(0.05, 0.95)))
+            elif k == "ps":
+                ops.append(("ps", rng.randrange(n), val(-3.0, 3.0)))
+            else:
+                ops.append(("loss", rng.randrange(n), val(0.05, 0.9)))
+
+        def arg(i):
+            return pars[i] if pars[i] is not None else vals[i]
+
+        def build():
+            c = lw.Circuit(n)
+            split = rng.randrange(len(ops) + 1)
+            sub = lw.Circuit(n)
+            for j, o in enumerate(ops):
+                tgt = sub if j < split else c
+                if j == split and split > 0:
+                    c.add(sub, 0, group=rng.random() < 0.5)
+                if o[0] == "bs":
+                    tgt.bs(o[1], o[2], reflectivity=arg(o[4]), convention=o[3])
+                elif o[0] == "ps":
+                    tgt.ps(o[1], arg(o[2]))
+                else:
+                    tgt.loss(o[1], arg(o[2]))
+            if split == len(ops) and split > 0:
+                c.add(sub, 0, group=rng.random() < 0.5)
+            return c
+
+        def product(values):
+            U = np.eye(n, dtype=complex)
+            for o in ops:
+                E = np.eye(n, dtype=complex)
+                if o[0] == "bs":
+                    a, b, r = o[1], o[2], values[o[4]]
+                    c_, s_ = math.sqrt(r), math.sqrt(1 - r)
+                    if o[3] == "Rx":
+                        E[a, a], E[a, b], E[b, a], E[b, b] = c_, 1j * s_, 1j * s_, c_
+                    else:
+                        E[a, a], E[a, b], E[b, a], E[b, b] = c_, s_, s_, -c_
+                elif o[0] == "ps":
+                    E[o[1], o[1]] = np.exp(1j * values[o[2]])
+                else:
+                    E[o[1], o[1]] = math.sqrt(1 - values[o[2]])
+                U = E @ U
+            return U
+
+        c = build()
+        nloss = sum(1 for o in ops if o[0] == "loss")
+        old = list(vals)
+
+        def check(circ, values, what):
+            Uf = np.array(circ.U_full)
+            if Uf.shape[0] != n + nloss:
+                return f"{what}: U_full has dimension {Uf.shape[0]}, expected {n + nloss}"
+            if not np.allclose(Uf[:n, :n], product(values), atol=1e-9):
+                return f"{what}: leading block of U_full is not the ordered product of the components at their current values"
+            if not np.allclose(Uf @ Uf.conj().T, np.eye(Uf.shape[0]), atol=1e-9):
+                return f"{what}: U_full is not unitary"
+            return None
+
+        msg = check(c, old, "as built")
+        if msg:
+            return msg
+        frozen = c.copy(freeze_parameters=True)
+        plain = c.copy()
+        new = list(vals)
+        for i, p in enumerate(pars):
+            if p is not None:
+                o = next(x for x in ops if x[-1] == i)
+                new[i] = rng.uniform(0.05, 0.95) if o[0] in ("bs", "loss") else rng.uniform(-3.0, 3.0)
+                p.set(new[i])
+        return (check(c, new, "after the parameters were updated (a frozen and a plain copy had been taken)")
+                or check(plain, new, "plain copy after the update")
+                or check(frozen, old, "frozen copy after the update"))
+
     def impl(self, c):
+        if c["kind"] == "param":
+            return {"fail": self._param_scenario(c["seed"])}
         if c["kind"] == "tree":
             self._fail = None
 
@@ -162,6 +258,8 @@ class C01:
 
     # the property stated directly on the implementation
     def oracle(self, c, obs):
+        if c["kind"] == "param":
+            return obs["fail"]
         if c["kind"] == "tree":
             return obs[2]["step"]
         prog = c["prog"]
@@ -240,6 +338,8 @@ class C01:
         return None
 
     def nontrivial(self, c, obs):
+        if c["kind"] == "param":
+            return True
         outcomes = obs[0]
         kinds = Counter(op[0] for op, out in zip(c["prog"], outcomes) if "ok" in out and op[0] not in ("new", "unitary"))
         return sum(kinds.values()) >= 3 and len(kinds) >= 2
@@ -251,7 +351,7 @@ class C01:
         for r in recs:
             if not isinstance(r["impl"], list):
                 continue
-            for op, out in zip(r["case"]["prog"], r["impl"][0]):
+            for op, out in zip(r["case"].get("prog", []), r["impl"][0]):
                 ops[op[0]] += 1
                 if "err" in out:
                     errs[out["err"]] += 1
@@ -261,6 +361,8 @@ class C01:
                 "model_cases": sum(1 for c in cases if c["model"]), "oracle_only_cases": sum(1 for c in cases if not c["model"])}
 
     def shrink(self, c):
+        if "prog" not in c:
+            return
         prog = c["prog"]
         for i in range(len(prog) - 1, 0, -1):
             d = copy.deepcopy(c)
